@@ -272,8 +272,8 @@ fn judge_source(rep: &mut Report, what: &str, src: &[u8], info: &Value, rename_s
 #[derive(Clone, Debug)]
 enum Spec { S1(u64, u64), S2a(usize), S2b, S3(u64, u64), S4(u32, bool), S5(u64) }
 
-fn plan(tier: Tier) -> Vec<Spec> {
-    let mut v = vec![];
+/// (the block that carries every coverage obligation — also the whole quick plan, what the thorough tier adds)
+fn plan(tier: Tier) -> (Vec<Spec>, Vec<Spec>) {
     let ks = [2usize, 3, 4, 6, 9, 14, 22, 35, 50, 5, 2, 50];
     let block = |v: &mut Vec<Spec>, round: u64| {
         for c in 0..36 { v.push(Spec::S1(c, round)); }
@@ -283,12 +283,12 @@ fn plan(tier: Tier) -> Vec<Spec> {
         if round % 8 == 0 { v.push(Spec::S4(65535, false)); v.push(Spec::S4(65535, true)); v.push(Spec::S4(65534, false)); }
         for _ in 0..24 { v.push(Spec::S2b); }
     };
-    block(&mut v, 0);
-    match tier {
-        Tier::Quick => { for c in 0..36 { v.push(Spec::S1(c, 1)); } }
-        Tier::Thorough => { for round in 1..24 { block(&mut v, round); } }
-    }
-    v
+    let mut first = vec![];
+    block(&mut first, 0);
+    for c in 0..36 { first.push(Spec::S1(c, 1)); }
+    let mut more = vec![];
+    if tier == Tier::Thorough { for round in 2..25 { block(&mut more, round); } }
+    (first, more)
 }
 
 fn build_scenario(spec: &Spec, rng: &mut Rng) -> Result<(scen::Scn, Vec<u8>), String> {
@@ -365,17 +365,8 @@ fn self_checks() {
     if !probe.violations.keys().any(|k| k.contains(".insns")) { die("comparison canary: a branch target moved by one instruction was not flagged"); }
 }
 
-fn main() {
-    filter_stderr();
-    let mut ctx = Ctx::from_args("C02", 40, 540);
-    let replay = load_replay(&mut ctx);
-    let mut rep = Report::new();
-    self_checks();
-
-    // ---- workload 1: large-method scenarios (first: the coverage obligations depend on them)
-    let specs = plan(ctx.tier);
-    run_cases(&ctx, &replay, &mut rep, "scenarios", specs.len() as u64, |rng, rep, i| {
-        let spec = &specs[i as usize];
+/// one large-method scenario: build, self-check the harness' own emission, judge as read and renamed
+fn scenario_case(rng: &mut Rng, rep: &mut Report, i: u64, spec: &Spec) {
         let t0 = std::time::Instant::now();
         let (s, src) = match build_scenario(spec, rng) { Ok(x) => x, Err(e) => { rep.count("scenario.generation_failed"); rep.note(format!("scenario generation failed: {}", template(&e))); return; } };
         rep.count(&format!("scenario.{}", s.kind));
@@ -401,10 +392,21 @@ fn main() {
         }
         if std::env::var_os("C02_DEBUG").is_some() && t0.elapsed().as_millis() > 400 { eprintln!("DEBUG slow scenario {:?}: {} ms", spec, t0.elapsed().as_millis()); }
         if let Some(o) = outs.first() {
-            if o.attempts_max >= 2 { rep.sample(|| json!({"kind": "large-method scenario", "parameters": s.info, "source_bytes": src.len(), "writer_attempts": o.attempts_max, "jumps_in_long_form": o.widened, "trampolines": o.tramps, "written_code_length": o.code_max, "refused": o.refused})); }
+            // three fixed, different cases are written out (one exact-boundary jump, the longest chain, one refusal)
+            if matches!(spec, Spec::S1(18, 0) | Spec::S2a(35) | Spec::S3(1, 2)) { rep.sample(|| json!({"kind": "large-method scenario", "parameters": s.info, "source_bytes": src.len(), "writer_attempts": o.attempts_max, "jumps_in_long_form": o.widened, "trampolines": o.tramps, "written_code_length": o.code_max, "refused": o.refused})); }
         }
-    });
+    }
 
+fn main() {
+    filter_stderr();
+    let mut ctx = Ctx::from_args("C02", 40, 540);
+    let replay = load_replay(&mut ctx);
+    let mut rep = Report::new();
+    self_checks();
+
+    // ---- workload 1: large-method scenarios (first: every coverage obligation is met by this block)
+    let (specs, specs_more) = plan(ctx.tier);
+    run_cases(&ctx, &replay, &mut rep, "scenarios", specs.len() as u64, |rng, rep, i| scenario_case(rng, rep, i, &specs[i as usize]));
     if std::env::var_os("C02_DEBUG").is_some() { eprintln!("DEBUG scenarios done at {:.1}s", ctx.elapsed_s()); }
     // ---- workload 2: generated classes (same generator as C01) x layouts, plain and renamed
     let cfg = gen::GenCfg::default();
